@@ -246,6 +246,10 @@ def step_case(rng, cfgname, thumb, code, mode=None, it=None, e=None, code_base=N
     d1 = DATA[1] + rng.choice((0, 0, 0, 0, 0, 1, 2, 3, 5, -1, -2, -3))
     devs.append((DATA[0], d1))
     devs.append((DATA[0] + d1, DATA2[1]))
+    if rng.random() < 0.04:
+        # a large device (128 KiB and a bit) whose beginning is not a multiple of the access size: whatever granule an implementation stores it in,
+        # aligned accesses inside it cross that granule's boundaries
+        devs.append((0x30000 + rng.choice((1, 2, 3, 5, 6)), 0x20000 + rng.choice((0, 3, 0x100))))
     ptrs = [DATA[0], DATA[0] + DATA[1], DATA[0] + 0x80, code_base, code_base + 0x100, 0, 0xFFFFFFFC]
     st = gen_core(rng, ptrs)
     pc = (code_base + 0x40 + pc_off) & M32
@@ -320,6 +324,10 @@ def step_case(rng, cfgname, thumb, code, mode=None, it=None, e=None, code_base=N
     if rng.random() < 0.25:
         st['event_register'] = True             # an event sent by another observer before this step (SEV elsewhere / send_event_local)
     poke = [(pc, code)]
+    for b_, sz_ in devs:
+        if sz_ >= 0x20000:
+            for at in ((b_ + 0x10000) & ~0xFFFF, b_ + 0x10000, (b_ + 0x20000) & ~0xFFFF, (b_ + 0x1000) & ~0xFFF):
+                poke.append((at - 0x10, bytes(rng.getrandbits(8) | 1 for _ in range(0x20))))
     # something recognisable in the data device and at the vectors
     poke.append((DATA[0], bytes((rng.getrandbits(8) for _ in range(DATA[1])))))
     return e1.make_case(cfg, devs, st, poke, steps, hooked)
